@@ -347,6 +347,11 @@ def memberTag (cfg : Option MetaCfg) (ci : ClassInfo) : Option S :=
   | none =>
     if (cfg.bind (Â·.autoAssignTags)).getD false || own.autoAssignTags.getD false then some ci.name else none
 
+/-- does a Union member answer to tag `tg` -/
+def tyHasTag (cfg : Option MetaCfg) (tg : S) : Ty â†’ Bool
+  | .cls ci _ => memberTag cfg ci == some tg
+  | _ => false
+
 def setAttribution (cls field : S) : LErr â†’ LErr
   | .parse c f => .parse (c <|> some cls) (f <|> some field)
   | .missingData c f n => .missingData (c <|> some cls) (f <|> some field) n
@@ -613,8 +618,7 @@ def loadTagged (std : Std) (cfg : Option MetaCfg) (tg : S) : List Ty â†’ JVal â†
       match t with
       | .cls ci ftys =>
         -- later members with the same tag overwrite earlier ones in `tag_to_parser`
-        if memberTag cfg ci == some tg && !(ts.any (fun t' => match t' with
-              | .cls ci' _ => memberTag cfg ci' == some tg | _ => false)) then
+        if memberTag cfg ci == some tg && !(ts.any (tyHasTag cfg tg)) then
           loadClassWith (fun f v => loadField std cfg f v ftys) (effMeta ci.cmeta cfg) ci o
         else loadTagged std cfg tg ts o
       | _ => loadTagged std cfg tg ts o
